@@ -741,8 +741,10 @@ class EncodingParser(object):
     def handleMeta(self):
         if (self.data.currentByte not in spaceCharactersBytes and
                 self.data.currentByte != b"/"):
-            # if we have <meta not followed by a space or a slash, just keep going
-            return True
+            # <meta not followed by a space or a slash is the start of some
+            # other tag name: treat it like any start tag
+            self.data.position -= 4
+            return self.handlePossibleTag(False)
         # We have a valid meta element we want to search for attributes
         hasPragma = False
         pendingEncoding = None
